@@ -458,7 +458,8 @@ impl Property for C07 {
             .prop_flat_map(move |(cfg, focus)| {
                 let frag = prop_oneof![
                     12 => op_strategy(focus.clone()).prop_map(|o| vec![o]),
-                    1 => pending_scenario(focus),
+                    1 => pending_scenario(focus.clone()),
+                    1 => pending_front_replaced(focus),
                 ];
                 (Just(cfg), proptest::collection::vec(frag, 1..max_ops).prop_map(|v| v.into_iter().flatten().collect::<Vec<_>>()))
             })
@@ -480,7 +481,7 @@ impl Property for C07 {
         run_history(&case.cfg, &case.ops)
     }
     fn rule() -> String {
-        "histories of routing-table operations (insert_or_update, update_node, update_node_status, remove, Entry API, iter, closest_keys, nodes_by_distances, take_applied_pending, forced pending expiry; bulk fills expanded) over keys L^d with the highest bit of d chosen per bucket class (0..5, middle, 253..255) and <=20 low-bit patterns per bucket; max_incoming 0..16; pending timeout 0 or 1h. After EVERY elementary op the table is observed through buckets_iter/iter/pending only and S1-S6, P1-P3 are evaluated. One case in 151 is a companion on the service engine: a real Discv5 built from a configuration with incoming_bucket_limit 0..16 (half of them 0..3) takes 20..120 session reports (incoming / outgoing), disconnects and explicit adds for 90 peers; after every step no bucket of Discv5::table_entries() may hold more than 16 nodes or more connected incoming nodes than the CONFIGURED limit. Non-trivial = some bucket reached 16 nodes and a later op addressed that bucket (companion: an incoming session was stored or refused). Distinct = distinct (config, op list).".into()
+        "histories of routing-table operations (insert_or_update, update_node, update_node_status, remove, Entry API, iter, closest_keys, nodes_by_distances, take_applied_pending, forced pending expiry; bulk fills expanded; by-construction fragments around a full bucket with a waiting node, incl. the front node leaving and a connected node taking its slot before the time-out) over keys L^d with the highest bit of d chosen per bucket class (0..5, middle, 253..255) and <=20 low-bit patterns per bucket; max_incoming 0..16; pending timeout 0 or 1h. After EVERY elementary op the table is observed through buckets_iter/iter/pending only and S1-S6, P1-P3 are evaluated. One case in 151 is a companion on the service engine: a real Discv5 built from a configuration with incoming_bucket_limit 0..16 (half of them 0..3) takes 20..120 session reports (incoming / outgoing), disconnects and explicit adds for 90 peers; after every step no bucket of Discv5::table_entries() may hold more than 16 nodes or more connected incoming nodes than the CONFIGURED limit. Non-trivial = some bucket reached 16 nodes and a later op addressed that bucket (companion: an incoming session was stored or refused). Distinct = distinct (config, op list).".into()
     }
     fn assumptions() -> Vec<String> {
         vec![
